@@ -675,3 +675,50 @@ func (f *Flow) reachBlock(starts []point, stop nodePred, isTarget func(*cfg.Bloc
 	}
 	return false
 }
+
+// ---------------------------------------------------------------------------
+// Callee summaries: rules that ask "does this node call X" must keep holding
+// when X is moved into a small helper of the same module (extract-function is
+// the most common behaviour-preserving refactoring).
+
+// mayReach reports whether fn is, or can call through module-local functions
+// (statically resolved, at most depth levels), a function accepted by pred.
+func (c *Ctx) mayReach(fn *types.Func, pred func(*types.Func) bool, depth int) bool {
+	if fn == nil {
+		return false
+	}
+	if pred(fn) {
+		return true
+	}
+	if depth <= 0 || fn.Pkg() == nil || !strings.HasPrefix(fn.Pkg().Path(), modRoot) {
+		return false
+	}
+	fi := c.FuncInfoOf(fn)
+	if fi == nil || fi.Decl.Body == nil {
+		return false
+	}
+	found := false
+	info := fi.Info()
+	ast.Inspect(fi.Decl.Body, func(m ast.Node) bool {
+		if found {
+			return false
+		}
+		if call, ok := m.(*ast.CallExpr); ok {
+			if callee := calleeOf(info, call); callee != nil && callee != fn && c.mayReach(callee, pred, depth-1) {
+				found = true
+			}
+		}
+		return true
+	})
+	return found
+}
+
+// viaHelpers lifts a callee predicate to "calls it directly or through module-local helpers".
+func (c *Ctx) viaHelpers(pred callPred, depth int) callPred {
+	return func(fn *types.Func, call *ast.CallExpr) bool {
+		if pred(fn, call) {
+			return true
+		}
+		return c.mayReach(fn, func(g *types.Func) bool { return g != fn && pred(g, nil) }, depth)
+	}
+}
